@@ -93,7 +93,8 @@ def run_history(idx, hist, jobs_cycle):
         obs.append(rel.obs(group, "ref", group + "/fresh", cachelayer.fobs(fresh), fresh["rc"]))
         obs.append(rel.obs(group, "alt", group + "/cached-j%d" % jobs, cachelayer.fobs(cached), cached["rc"]))
         cache_runs.append(cached["cache_events"])
-        steps.append({"group": group, "edits": hist[:step], "jobs": jobs})
+        steps.append({"group": group, "edits": hist[:step], "jobs": jobs,
+                      "wp": sorted(set(f["id"] for f in fresh["findings"] if f["id"] in ("ctunullpointer", "unusedFunction")))})
     runlayer.cleanup(root)
     return obs, cache_runs, steps
 
@@ -159,10 +160,14 @@ def main(tier, seed, replay=None):
         print("replay: transparent")
         return 0
     rc, new, known = vlib.verdict(PID, violations)
+    # vacuity guard for "including whole-program findings": the fresh runs must show them
+    wp_steps = {k: sum(1 for s_ in step_index.values() if k in s_.get("wp", ())) for k in ("ctunullpointer", "unusedFunction")}
+    if min(wp_steps.values()) == 0:
+        raise vlib.InfraError("no step reported %s: the whole-program part of the check would be vacuous" % wp_steps)
     cov = {"states": mc[0] + tstates, "transitions": mc[0] + tstates, "traces_validated_against_impl": nval,
            "evaluations": npairs, "distinct_nontrivial": len(hists),
            "rule": "one evaluation per history step (cached run vs fresh run); histories enumerated by TLC (SeqGen over %d edit kinds): quick = all single edits + 45 seeded pairs, thorough = all singles and pairs + 600 seeded triples; every history changes the project between runs (non-trivial)" % len(cachelayer.EDITS),
-           "edit_alphabet": sorted(cachelayer.EDITS), "relation_bad": len(bad), "cache_trace_rejected": len(rejected),
+           "edit_alphabet": sorted(cachelayer.EDITS), "steps_with_whole_program_finding": wp_steps, "relation_bad": len(bad), "cache_trace_rejected": len(rejected),
            "samples": mc[1] + [{"history": hists[0]}, {"history": hists[-1]}]}
     vlib.write_evidence(PID, tier, seed, "model_checking", cov, time.time() - t0, violations=new,
                         assumptions=["source versions are abstracted to (tokens, layout, suppression comments) in the model; the binding replays concrete edits"])
